@@ -163,8 +163,9 @@ def run_op(spec, heap, rng_seed=None, cb=None, fault_ctx=None, keep=None):
         random.seed(rng_seed)
     val = None
     try:
-        with warnings.catch_warnings(), quiet():
-            warnings.simplefilter("ignore")
+        # (no warnings.catch_warnings() around the call: it would restore the process-wide warning filters afterwards and so
+        # hide a call that leaves them changed; the vcheck process starts with filterwarnings("ignore"), output is swallowed)
+        with quiet():
             with (fault_ctx if fault_ctx is not None else contextlib.nullcontext()):
                 val = spec.fn(heap, cb=cb) if spec.cb is not None else spec.fn(heap)
             out = ["value", None]
@@ -294,7 +295,8 @@ def generate(seed, tier, index=0, batch_seed=None):
         "fault_budget": rng.choice([2, 2, 4, 6]),
         "p_interrupt": rng.choice([0.25, 0.5]),
     }
-    sched = {"policy": "seeded", "seed": rng.getrandbits(32), "deliver_bias": rng.choice([0.1, 1.0, 1000.0])}
+    sched = {"policy": "seeded", "seed": rng.getrandbits(32), "deliver_bias": rng.choice([0.1, 1.0, 1000.0]),
+             "eager": rng.choice([0.0, 0.5, 1.0])}
     if index % 5 in (1, 3):
         # interrupt sweep: two runs in five walk through the catalogue in a fixed rotation and interrupt three templates each at a
         # seeded position, so that every template is interrupted about equally often in every batch (uniformly random fault
@@ -654,11 +656,15 @@ def pick_probes(op, spec, changed, table, ops):
     import zlib
 
     def rot(names, k, salt):
+        """k names spread evenly over the sorted list (neighbouring names are near-identical templates), from a keyed offset."""
         names = sorted(names)
         if not names:
             return []
+        k = min(k, len(names))
         off = zlib.crc32((op_key(op) + salt).encode()) % len(names)
-        return (names[off:] + names[:off])[:k]
+        stride = max(1, len(names) // k)
+        picked = [names[(off + i * stride) % len(names)] for i in range(k)]
+        return list(dict.fromkeys(picked))
 
     want = []
     seed = op.get("rng_seed")
@@ -679,7 +685,11 @@ def pick_probes(op, spec, changed, table, ops):
     if kinds & {"global", "default", "heapobj"}:
         sib = [n for n, o in ops.items() if o.group == spec.group and (not o.slow or spec.slow)]
         few = spec.slow or all(n == "pyrepseq.nn._cal_params" for n in names_changed)
-        want += [{"op": n} for n in rot(sib, 2 if few else 5, "sib")]
+        # after a fault that left state behind, look harder: ten victims of the group instead of five
+        want += [{"op": n} for n in rot(sib, 2 if few else (10 if op.get("fault") else 5), "sib")]
+        if op.get("fault") and not few:
+            fam = [n for n, o in ops.items() if FAMILY.get(o.group) == FAMILY.get(spec.group) and o.group != spec.group and not o.slow]
+            want += [{"op": n} for n in rot(fam, 4, "fam")]
     if op.get("fault"):
         want += again
     out, seen = [], set()
@@ -697,7 +707,7 @@ def pick_probes(op, spec, changed, table, ops):
         seen.add(k)
         w["probe"] = True
         out.append(w)
-    return out[:12]
+    return out[:20]
 
 
 def _retainable(v, depth=0):
